@@ -14,6 +14,7 @@ import (
 	"math/rand"
 	"os"
 	"runtime"
+	"runtime/debug"
 	"strings"
 	"time"
 	stdutf8 "unicode/utf8"
@@ -191,6 +192,12 @@ func strHandle(in []byte) []byte {
 	}
 	res := strRes{ID: c.ID}
 	od := obsBegin()
+	debug.SetPanicOnFault(true)
+	defer func() {
+		if r := recover(); r != nil {
+			res.bad(&c, "any", "fault_or_panic", nil, "", fmt.Sprint(r))
+		}
+	}()
 	var e map[string]interface{}
 	json.Unmarshal(c.E, &e)
 	for k := 0; k < c.M; k++ {
@@ -223,7 +230,7 @@ func strQuoteCase(c *strCase, res *strRes, r *rand.Rand, lead, trail string) {
 		hasBad = hasBad || cl == "bad"
 	}
 	sb.WriteString(trail)
-	s := sb.String()
+	s := strOf(placeInput([]byte(sb.String()), len(c.S))) // placed per VERIF_PLACE (heap / guard page / adversarial continuation)
 	in := []byte(s)
 	// encoder.Quote: a literal that decodes back to the input
 	q := encoder.Quote(s)
@@ -250,7 +257,7 @@ func strQuoteCase(c *strCase, res *strRes, r *rand.Rand, lead, trail string) {
 		json.HTMLEscape(&wb, []byte(q))
 		dst := make([]byte, len(prefix), len(prefix)+r.Intn(8))
 		copy(dst, prefix)
-		got := encoder.HTMLEscape(dst, []byte(q))
+		got := encoder.HTMLEscape(dst, placeInput([]byte(q), len(prefix)))
 		obsAdd("HTMLEscape", got)
 		res.Evals++
 		if !bytes.Equal(got, wb.Bytes()) {
@@ -328,7 +335,7 @@ func strUnquoteCase(c *strCase, res *strRes, r *rand.Rand, lead, trail string, e
 		raw = raw || tk == "nl" || tk == "bad" || tk == "ctl" || tk == "cr" || tk == "tab"
 	}
 	sb.WriteString(trail)
-	t := sb.String()
+	t := strOf(placeInput([]byte(sb.String()), len(c.S)))
 	in := []byte(t)
 	expect := func(key string) (bool, string) {
 		m := e[key].(map[string]interface{})
@@ -457,6 +464,7 @@ func strUtf8Case(c *strCase, res *strRes, r *rand.Rand, lead, trail string, e ma
 	}
 	b = append(b, concrete...)
 	b = append(b, trail...)
+	b = placeInput(b, len(c.S))
 	wantValid := e["valid"].(bool)
 	// expected correction, from the specification's class output
 	var want []byte
